@@ -573,6 +573,37 @@ def check(run):
         run.case('iteratetask', nontrivial=True)
         if not ok:
             run.fail('iteratetask', 'iteratetask(t, 2) does not yield t[0], t[1] and stop', {'kind': 'iteratetask'})
+        # every kind of view and wrapper as the ONLY link between a producer and a consumer, in a whole jugfile (items, slices, task-valued indices, dict keys, mapped
+        # sequences and their slices, iterated / unpacked elements, identity and CustomHash around tasks, containers and views, function-wrapped views of tasks, containers and
+        # mapped sequences): the consumer receives the operation applied to the producers' values (= the same text as plain Python) and reports every task underneath
+        from jugverif import genprog, execengine as E_
+        sc_ = core.scratch_dir()
+        try:
+            for fp in genprog.single_link_programs():
+                jug.task.Task.store = None
+                del jug.task.alltasks[:]
+                rp = {'kind': 'single-link', 'program': fp.text}
+                core.CURRENT_INPUT.clear()
+                core.CURRENT_INPUT.update({'kind': 'jugfile', 'text': fp.text})
+                P_ = E_.analyse_text(fp.text, sc_, fp.embed)
+                run.case(('single-link', fp.text), nontrivial=True)
+                run.count('single_link_programs')
+                for k_ in sorted(P_['plain']):
+                    if lib.canon(P_['top'][k_]) != lib.canon(P_['plain'][k_]):
+                        run.fail('view-value', 'value(%s) = %s, plain Python evaluation of the same text gives %s; jugfile: %s' % (k_, lib.canon(P_['top'][k_])[:150], lib.canon(P_['plain'][k_])[:150],
+                                                                                                                                  ' ; '.join(fp.text.split('\n')[2:])[:300]), rp)
+                        break
+                for fname, kk, got_, exp_ in P_.get('seq_arg_diffs', [])[:1]:
+                    run.fail('view-argument', '%s(k=%s) received %s, the operation applied to the producers\' values gives %s; jugfile: %s' % (fname, kk, got_[:150], exp_[:150], ' ; '.join(fp.text.split('\n')[2:])[:300]), rp)
+                for i_, inf in enumerate(P_['info']):
+                    missing = sorted(set(inf['reads']) - set(inf['reported']))
+                    if missing:
+                        run.fail('view-dependency-missing', 'task %s reads the results of %s but does not report them as dependencies (it would not wait for them, nor be invalidated with them); jugfile: %s'
+                                 % (inf['name'], [P_['info'][d_]['name'] for d_ in missing], ' ; '.join(fp.text.split('\n')[2:])[:300]), rp)
+                        break
+        finally:
+            core.CURRENT_INPUT.clear()
+            core.rm_rf(sc_)
         if drv is not None and run.corr_disagreements == 0:
             run.obligation('correspondence: %d view evaluations / dependency sets / indexing cases equal the model' % run.corr_programs, True)
     finally:
